@@ -25,6 +25,10 @@ pub(crate) fn parse_oct_int_value(value: &str) -> Result<Value, RevalParseError>
     Ok(Value::Int(i128::from_str_radix(&value[2..], 8)?))
 }
 
+pub(crate) fn parse_index_value(value: &str) -> Result<usize, RevalParseError> {
+    Ok(usize::from_str(value)?)
+}
+
 pub(crate) fn parse_float_value(value: &str) -> Result<Value, RevalParseError> {
     Ok(Value::Float(f64::from_str(&value[1..])?))
 }
